@@ -719,7 +719,8 @@ def ref_criteria(fn, ranges, crits, values):
 
 
 def arr_text(form, xs):
-    return '{' + (',' if form == 'l' else ';').join(lit(x) for x in xs) + '}'
+    # (a whole float of 1e16 and more has no literal spelling of its own: its digits, which denote the same number)
+    return '{' + (',' if form == 'l' else ';').join(lit(int(x) if isinstance(x, float) and x.is_integer() and abs(x) >= 1e16 else x) for x in xs) + '}'
 
 
 def crit_one(env, fn, form, ranges, crits, values):
@@ -1146,23 +1147,67 @@ class ExtremeItems(Sub):
     name = 'c11.extreme_items'
     rule = ('MEDIAN, AVERAGE, MIN, MAX and LARGE over 2..4 items near or beyond the largest double whose SUM cannot be held '
             'but whose statistic can (10^309 twice, 10^400 and 10^400+2, 1.5e308 and 1.7e308, ...) in every order, as arguments and '
-            'as a host list: the exact statistic (whole results exactly, others within 1e-9); non-trivial = all')
+            'as a host list: the exact statistic (whole results exactly, others within 1e-9); SUM, AVERAGE and all-selecting SUMIF / SUMIFS over '
+            'whole numbers mixed with floats that cancel (10^16, 1.0, -10^16) in every order; non-trivial = all')
     min_cases = 20
     min_nontrivial = 20
     LISTS = [[10 ** 309, 10 ** 309], [10 ** 400, 10 ** 400 + 2], [1.5e308, 1.7e308], [1.7e308, 1.7e308, 1.0], [10 ** 309, 10 ** 309 + 4, 7, 10 ** 310],
              [-1.5e308, -1.7e308], [1e308, 1.5e308, 1.6e308, 1.7e308], [2 ** 1024, 2 ** 1024 + 2], [-(10 ** 309), 10 ** 309]]
     FUNCS = ['MEDIAN', 'AVERAGE', 'MIN', 'MAX', 'LARGE2']
+    # whole numbers (every whole-number literal is one) among floats whose sum cancels: the sum is rounded once, in every order
+    MIXED = [[10 ** 16, 1.0, -10 ** 16], [10 ** 16, 0.5, -10 ** 16, 0.25], [2 ** 60, 1.5, -2 ** 60], [10 ** 400, 1.0, -10 ** 400]]
 
     def cases(self, tier, unit):
         for li in range(len(self.LISTS)):
             for fn in self.FUNCS:
                 yield [li, fn]
+        for li in range(len(self.MIXED)):
+            for fn in ('SUM', 'AVERAGE', 'SUMIFALL'):
+                yield [len(self.LISTS) + li, fn]
+        for pi in range(len(self.PRODUCTS)):
+            yield [pi, 'PRODUCT']
+
+    # whole-number products right below the bound up to which whole numbers are computed (2^17 bits: the exact product), a zero among
+    # factors whose product is beyond it (0 in every order), and plain cases
+    PRODUCTS = [[2 ** 65536, 2 ** 65535], [2 ** 131070, 2], [2 ** 131071, 1], [2 ** 100000, 2 ** 31071, 1], [3, 2 ** 131069], [2 ** 131071, 4, 0],
+                [0, 2 ** 131071, 4], [2 ** 70000, 0, 2 ** 70000], [7 ** 20000, 3 ** 30000, -1], [2 ** 1000, 0.5], [1.5, 4, 0]]
+
+    def product(self, env, items):
+        want = 1
+        for x in items:
+            want = want * x
+        for perm in sorted(set(itertools.permutations(items))):
+            for f, vars_ in (('PRODUCT(arr)', {'arr': list(perm)}), ('PRODUCT(arr,brr)', {'arr': list(perm[:1]), 'brr': [list(perm[1:])]})):
+                o = env.evo(f, vars_)
+                v = o[1] if o[0] == 'v' else None
+                if isinstance(v, dict) and '$int' in v:
+                    v = int(v['$int'], 0)
+                if not (isinstance(v, (int, float)) and not isinstance(v, bool) and v == want):
+                    shown = repr(o) if not isinstance(v, int) or abs(v) < 2 ** 63 else '%d-bit whole number' % v.bit_length()
+                    return fail('%s with the items %s = %s, expected their product (%s)' % (
+                        f, ', '.join(repr(x) if not isinstance(x, int) or abs(x) < 2 ** 63 else '2^%d-ish (%d bits)' % (x.bit_length() - 1, x.bit_length()) for x in perm),
+                        shown, repr(want) if not isinstance(want, int) or abs(want) < 2 ** 63 else 'a whole number of %d bits' % want.bit_length()), 'the product', shown)
+        return None
 
     def check(self, env, case):
-        items, fn = self.LISTS[case[0]], case[1]
+        if case[1] == 'PRODUCT':
+            env.nt()
+            env.note('PRODUCT')
+            return self.product(env, self.PRODUCTS[case[0]])
+        items, fn = (self.LISTS + self.MIXED)[case[0]], case[1]
         env.nt()
         env.note(fn)
         k = None
+        if fn == 'SUMIFALL':
+            # SUMIF / SUMIFS selecting every item sum as SUM sums
+            want = sum((fr(x) for x in items), Fraction(0))
+            for perm in sorted(set(itertools.permutations(items)), key=repr):
+                for f in ('SUMIF(xones,">0",arr)', 'SUMIFS(arr,xones,">0")', 'SUMIF(arr,"<>0.125")'):
+                    o = env.evo(f, {'arr': list(perm), 'xones': [1] * len(perm)})
+                    if not (o[0] == 'v' and isinstance(o[1], (int, float)) and not isinstance(o[1], bool) and Fraction(o[1]) == want):
+                        return fail('%s with arr = %r = %r, expected %s (every item is selected: the sum of the items, rounded once)' % (f, list(perm), o, float(want)),
+                                    float(want), o)
+            return None
         if fn == 'LARGE2':
             fn, k = 'LARGE', 2
         spec = ref_stat(fn, items, k)
